@@ -424,6 +424,94 @@ def c20_6(ctx):
 _BYTE_REWRITES = ("strip", "lstrip", "rstrip", "replace", "lower", "upper", "translate", "removeprefix", "removesuffix", "split", "expandtabs")
 
 
+def c20_8(ctx):
+    """MEMO: rendered parts / decoded payloads are not remembered under a key that leaves out the payload they were made from"""
+    from sa.memo import memo_obligation
+    return memo_obligation(ctx, ["bcur", "bech32"], "a second payload encoded with the same chunk size returns the first payload's parts")
+
+
+def c20_9(ctx):
+    """the x-of-y reader accepts every header the writer can emit: the writer prints the part count as a plain integer (unbounded --
+    600 bytes at 5 characters per part are 108 parts), so a regular expression on the reader side must not cap the number of
+    digits (regex syntax tree: the repeat of each digit group must be unbounded)"""
+    spec = "bcur:_parse_bcur_helper"
+    mod, fn = rl.get(ctx, spec)
+    f = Folder(ctx.repo, mod.name)
+    pats = []
+    for c in ast.walk(fn):
+        if isinstance(c, ast.Call) and call_name(c) in ("match", "fullmatch", "search") and isinstance(c.func, ast.Attribute):
+            recv = c.func.value
+            if dotted(recv) == "re" and c.args:
+                p_ = f.fold(c.args[0])
+                if isinstance(p_, str):
+                    pats.append((c, p_))
+            elif isinstance(recv, ast.Name):
+                # a module-level compiled pattern
+                v = mod.constants.get(recv.id)
+                if isinstance(v, ast.Call) and call_name(v) == "compile" and v.args:
+                    p_ = f.fold(v.args[0])
+                    if isinstance(p_, str):
+                        pats.append((c, p_))
+    if not pats:
+        return [ctx.ok(spec, "the x-of-y header is split and converted with int(): no bound on the number of digits", fn, mod, key="xofy-digits")]
+    import re._parser as sre
+    out = []
+    for c, p_ in pats:
+        if "of" not in p_:
+            continue
+        tree = sre.parse(p_)
+        capped = []
+
+        def walk(items):
+            for op, av in items:
+                opn = str(op)
+                if opn in ("MAX_REPEAT", "MIN_REPEAT", "POSSESSIVE_REPEAT"):
+                    lo, hi, sub = av
+                    digits = any(str(o) == "IN" and any(str(o2) in ("RANGE", "CATEGORY") for o2, _ in a2) for o, a2 in sub)
+                    if digits and str(hi) != "MAXREPEAT" and isinstance(hi, int) and hi < 10:
+                        capped.append(hi)
+                    walk(sub)
+                elif opn == "SUBPATTERN":
+                    walk(av[3])
+                elif opn == "BRANCH":
+                    for b in av[1]:
+                        walk(b)
+        walk(tree)
+        if capped:
+            out.append(ctx.bad(spec, "the x-of-y pattern %r allows at most %d digit(s) per number: a payload split into %d or more parts (the writer prints any count) "
+                                     "cannot be read back" % (p_, max(capped), 10 ** max(capped)), c, mod, key="xofy-digits"))
+        else:
+            out.append(ctx.ok(spec, "the x-of-y pattern %r does not cap the number of digits" % p_, c, mod, key="xofy-digits"))
+    return out or [ctx.ok(spec, "no x-of-y pattern with a digit cap", fn, mod, key="xofy-digits")]
+
+
+def c20_10(ctx):
+    """BCURMulti.parse judges every part: each element of the list is either appended in order or the parse fails.  A part that is
+    *skipped* because its text equals the previous part's (a "repeated frame" shortcut) drops legitimate parts -- equal neighbouring
+    chunks occur for runs of equal bytes -- and the payload does not reassemble"""
+    spec = "bcur:BCURMulti.parse"
+    mod, fn = rl.get(ctx, spec)
+    cfg = cfg_of(fn)
+    loops = [lp for lp in cfg.loops.values() if isinstance(lp.stmt, ast.For) and "to_parse" in ast.unparse(expand(fn, lp.head, lp.stmt.iter, depth=2))]
+    if not loops:
+        loops = [lp for lp in cfg.loops.values() if isinstance(lp.stmt, ast.For)]
+    if not loops:
+        raise AnalysisError("BCURMulti.parse: loop over the parts not found")
+    lp = loops[0]
+    conts = [x for x in ast.walk(lp.stmt) if isinstance(x, ast.Continue)]
+    if not conts:
+        return [ctx.ok(spec, "no part is skipped: the loop over the parts has no `continue`", lp.stmt, mod, key="no-skip")]
+    # the test guarding the continue
+    for t in cfg.tests():
+        if lp.head in t.loops and any(cfg.nodes[b].ast is not None and isinstance(cfg.nodes[b].ast, ast.Continue) or cfg.nodes[b].kind == "continue" for b, _ in cfg.succ[t.id]):
+            txt = ast.unparse(t.ast)
+            if "payload" in txt:
+                return [ctx.bad(spec, "`%s` skips a part whose text equals the previous part's: two neighbouring parts of a payload with a run of equal bytes are identical "
+                                      "text, the second is dropped and the remaining parts are \"not in order\"" % txt, t.ast, mod, key="no-skip")]
+            return [ctx.err(spec, "a part can be skipped under `%s`; cannot tell whether a legitimate part is lost" % txt, t.ast, mod)]
+    return [ctx.err(spec, "the loop over the parts contains `continue`", conts[0], mod)]
+
+
 def c20_7(ctx):
     """BCURSingle.parse / BCURMulti.parse: the bytes recovered by bcur_decode are re-encoded as they are -- any byte-level
     rewrite (strip, replace, ...) between bcur_decode and b2a_base64 changes payloads that contain the affected bytes"""
@@ -461,5 +549,8 @@ OBLIGATIONS = [
     ("C20.5", "GUARD", c20_5),
     ("C20.6", "AFFINE", c20_6),
     ("C20.7", "DATAFLOW verbatim", c20_7),
+    ("C20.8", "MEMO", c20_8),
+    ("C20.9", "REGEX AST", c20_9),
+    ("C20.10", "COVER no skip", c20_10),
 ]
 FLOORS = {"C20.1": 7, "C20.2": 4, "C20.3": 3, "C20.4": 4, "C20.5": 7, "C20.6": 2}
